@@ -1,7 +1,7 @@
 (* C04 specification, written from the property text and DESIGN Appendix C (not from the Go code):
    the value domain of every data type, when a decoded value counts as "the same value"
    (exact, or to the type's tick for the classic temporal types), NULL handling;
-   plus the dispatch functions run (the MODEL) and spec (the predicate applied to what the
+   plus the dispatch functions value_run (the MODEL) and value_spec (the predicate applied to what the
    IMPLEMENTATION produced).  No proofs here. *)
 From Coq Require Import ZArith List Bool.
 Import ListNotations.
@@ -160,7 +160,8 @@ Definition run_roundtrip (i : tree) : tree :=
   | None => tbad
   end.
 
-Definition run (fn : Z) (i : tree) : tree :=
+(* value level; the dispatch of the whole property (value level + package leg) is C04/PkgLeg.v run_all / spec_all *)
+Definition value_run (fn : Z) (i : tree) : tree :=
   match fn with
   | 1 => run_roundtrip i
   | 2 => tree_of_outcome tree_of_value (dec_value (t_int (t_nth 0 i)) (t_bytes (t_nth 1 i)))
@@ -170,7 +171,7 @@ Definition run (fn : Z) (i : tree) : tree :=
   | _ => tbad
   end.
 
-Definition spec (fn : Z) (i o : tree) : bool :=
+Definition value_spec (fn : Z) (i o : tree) : bool :=
   match fn with
   | 1 =>
       let t := t_int (t_nth 0 i) in
